@@ -380,6 +380,31 @@ func indTrieUnit(c *core.Ctx, e *cat.Ind, cfg []float64, prop string) {
 		}
 	}
 	walkTrie(k, n, rows, len(e.In), exec, visit)
+	// Non-finite samples (a missing value read as NaN, an overflowed +-Inf): the COUNT and alignment contract does not depend
+	// on the values, so every series of length w+4 with one NaN / +Inf / -Inf at each position in turn (in every input
+	// field) must still produce n-w values per output.
+	if prop == "C02" {
+		lrows := alphabet(e.In, true)
+		nlen := w + 4
+		for _, special := range []float64{math.NaN(), math.Inf(1), math.Inf(-1)} {
+			for p := 0; p < nlen; p++ {
+				in := make([][]float64, len(e.In))
+				for f := range in {
+					col := make([]float64, nlen)
+					for i := range col {
+						col[i] = lrows[(i*2+i/3)%len(lrows)][f]
+					}
+					col[p] = special
+					in[f] = col
+				}
+				nd := &trieNode{word: make([]int, nlen), in: in, run: exec(in)}
+				save := c.Only
+				c.Only = ""
+				visit(nd, nil)
+				c.Only = save
+			}
+		}
+	}
 	// One long series on top of the trie: a de Bruijn sequence over the well-behaved symbols (positive range and
 	// volume), i.e. a cyclic series in which EVERY window of `order` consecutive symbols occurs exactly once. It
 	// reaches the regime the depth-bounded trie cannot: thousands of values through one pipeline (running sums,
@@ -498,9 +523,42 @@ func init() {
 	core.Register(&core.Check{ID: "C02", Units: indUnits("C02"), Assume: indAssume,
 		Rule: "input trie as C01; oracle: every output has exactly max(0,n-w) values; non-trivial = nodes with n > w"})
 	core.Register(&core.Check{ID: "C04", Units: func(tier string) []core.Unit {
-		return append(append(indUnits("C04")(tier), stratUnits("C04")(tier)...), wrapperUnits("C04")(tier)...)
+		us := append(append(indUnits("C04")(tier), stratUnits("C04")(tier)...), wrapperUnits("C04")(tier)...)
+		th := tier == "thorough"
+		for _, e := range cat.Inds {
+			e := e
+			us = append(us, core.Unit{Key: "long:" + e.Name, Cost: 6, Run: func(c *core.Ctx) {
+				c04LongInd(c, e, spread(e.Cfgs(th)), false)
+				c04LongInd(c, e, degenerate(e.Cfgs(th)), true)
+				if e.Name == "momentum.IchimokuCloud" {
+					// periods outside their documented order (conversion < base < leading): see the known finding
+					c04LongInd(c, e, [][]float64{{2, 1, 3, 1}, {3, 2, 2, 1}}, true)
+				}
+			}})
+		}
+		for _, e := range cat.Strats {
+			e := e
+			us = append(us, core.Unit{Key: "long:" + e.Name, Cost: 8, Run: func(c *core.Ctx) {
+				c04LongStrat(c, e, spread(e.Cfgs(th)), false)
+				c04LongStrat(c, e, degenerate(e.Cfgs(th)), true)
+			}})
+		}
+		for i, e := range wrapperEntries() {
+			e := e
+			if th || i%4 == 0 {
+				us = append(us, core.Unit{Key: "long:" + e.Name, Cost: 4, Run: func(c *core.Ctx) { c04LongStrat(c, e, [][]float64{{}}, false) }})
+			}
+		}
+		return us
 	}, Assume: indAssume,
 		Rule: "every edge (s, s+symbol) of the input trie: outputs(s) must be a bit-identical prefix of outputs(s+symbol); non-trivial = edges whose parent has a non-empty output"})
-	core.Register(&core.Check{ID: "C15", Units: indUnits("C15"), Assume: indAssume,
-		Rule: "input trie over valid OHLCV / positive alphabets; oracle: documented range and ordering inequalities at every non-exempt position; non-trivial = nodes with at least one output value"})
+	core.Register(&core.Check{ID: "C15", Units: func(tier string) []core.Unit {
+		us := indUnits("C15")(tier)
+		ml := 4
+		if tier == "thorough" {
+			ml = 5
+		}
+		return append(us, core.Unit{Key: "typed-moving-extremes", Cost: 20, Run: func(c *core.Ctx) { c15TypedUnit(c, ml) }})
+	}, Assume: indAssume,
+		Rule: "input trie over valid OHLCV / positive alphabets; oracle: documented range and ordering inequalities at every non-exempt position; non-trivial = nodes with at least one output value; plus MovingMax / MovingMin instantiated with int64, int, int32, int8 and float32 over neighbouring values that collapse in float64 / float32 (all words to length 4 / 5, periods 1..3): min <= value <= max and both equal the brute-force window extremes"})
 }
